@@ -59,7 +59,7 @@ def main():
                 res["tests_repo_head"] = prev.get("repo_head", "earlier")
         except Exception:  # noqa
             pass
-    env = dict(os.environ, PYTHONPATH=wt, VERIF_REPO=wt)
+    env = dict(os.environ, PYTHONPATH=wt, VERIF_REPO=wt, VERIF_EVIDENCE_DIR="/tmp/sv/evidence")
     py = ["/venv/bin/python"] + (["-O"] if meta["property"] == "C15" else [])
     try:
         os.makedirs(os.path.join(wt, "_seed"), exist_ok=True)
